@@ -32,7 +32,7 @@ def nfp_replicated(cfg, k):
     return d
 
 
-def predict(cfg, rng, q=None, thorough=False):
+def predict(cfg, rng, q=None, thorough=False, even_k=False):
     out, n = [], 0
     if q is None:
         q, _ = build(cfg, shear=True)
@@ -93,6 +93,15 @@ def predict(cfg, rng, q=None, thorough=False):
             v, _ = iota2_of(nfp_replicated(cfg, kk)); n += 1
             if abs(v - i0) > 1e-6 * ref:
                 bad('iota2:nfp', 'iota2 depends on the declared number of field periods: %.9g (nfp=%d) vs %.9g (nfp=%d)' % (i0, cfg['nfp'], v, cfg['nfp'] // kk))
+    # even replication factor: the two declarations are different discretisations (k*nphi is even and promoted to k*nphi + 1) of the same continuous
+    # problem; on a resolved input they agree to the discretisation error (measured on the pinned tree: <= 2/nphi^2 relative; a lost factor nfp is O(1))
+    if even_k and cfg['nfp'] % 2 == 0 and cfg['nphi'] * 2 <= 200:       # (only on inputs known to be resolved: generated QH inputs are often not)
+        try:
+            v, _ = iota2_of(nfp_replicated(cfg, 2)); n += 1
+            if abs(v - i0) > max(1e-6, 200.0 / nphi ** 2) * ref:
+                bad('iota2:nfp', 'iota2 depends on the declared number of field periods: %.9g (nfp=%d) vs %.9g (nfp=%d, matched resolution)' % (i0, cfg['nfp'], v, cfg['nfp'] // 2), even_k=True)
+        except NotConverged:
+            pass
     if thorough:
         vals = []
         for m in (61, 121, 241):
@@ -118,7 +127,7 @@ def main():
     if a.mode == 'replay':
         f = (json.load(open(a.file)).get('failing') or {})
         if f.get('cfg'):
-            res['violations'], res['predictions_checked'] = predict(f['cfg'], rng)
+            res['violations'], res['predictions_checked'] = predict(f['cfg'], rng, even_k=bool(f.get('even_k')))
         print(json.dumps(res, default=str)); return
     t0 = time.time(); tried = 0
     nn = a.n if a.mode == 'check' else 10 ** 6
@@ -133,6 +142,15 @@ def main():
                 v, n = predict(k['replay']['cfg'], rng)
                 res['predictions_checked'] += n
                 res['violations'] += [x for x in v if x['key'] == k['key']]
+    # fixed input: a quasi-helically symmetric nfp = 4 axis WITH current at order r3 (helicity * nfp and helicity differ; I2 multiplies iotaN in the O(r^2) profile functions)
+    for c_ in [dict(rc=[1.0, 0.17, 0.01804, 0.001409, 5.877e-05], zs=[0.0, 0.1581, 0.0182, 0.001548, 7.772e-05], nfp=4, etabar=1.569, sigma0=0.0, B2c=0.1348, B2s=0.0,
+                    order='r3', sG=1, spsi=1, B0=1.0, I2=0.5, p2=0.0, nphi=41)]:
+        try:
+            q_, m_ = build(c_, shear=True)
+            v, n = predict(c_, rng, q_, even_k=True)
+            res['predictions_checked'] += n; res['violations'] += v; res['configs'] += 1; dist['fixed:QH-with-current'] = 1
+        except Exception:
+            pass
     while tried < nn and (a.mode == 'check' or (time.time() - t0 < a.budget and not [v for v in res['violations'] if v['key'] not in ('iota2:field-reversal', 'iota2:origin-shift')])):
         tried += 1
         sg = [(1, 1), (1, -1), (-1, 1), (-1, -1)][tried % 4]
